@@ -17,7 +17,7 @@ from vlib import *
 PID = 'C15'
 THEOREMS = ['C15_tentative_merged', 'C15_real_definitions_kept', 'C15_live_only_if_reachable', 'C15_live_if_reachable', 'C15_marking_monotone', 'C15_nonvacuous',
             # package emit (Properties_C15_emit.v)
-            'C15_emit_symtab', 'C15_emit_live_exists', 'C15_emit_closure_live', 'C15_emit_symbols', 'C15_emit_pic_same_symbols', 'C15_emit_no_redefinition', 'C15_emit_blocks_independent', 'C15_emit_anonymous_objects', 'C15_emit_gen_addr_table', 'C15_emit_extern_init_refuted', 'C15_emit_inline_first_refuted', 'C15_emit_fun_addr_now_emitted', 'C15_emit_fun_addr2_now_emitted', 'C15_emit_static_tls_local_now_tls', 'C15_emit_alignas_carried', 'C15_emit_nonvacuous']
+            'C15_emit_symtab', 'C15_emit_live_exists', 'C15_emit_closure_live', 'C15_emit_symbols', 'C15_emit_pic_same_symbols', 'C15_emit_no_redefinition', 'C15_emit_blocks_independent', 'C15_emit_anonymous_objects', 'C15_emit_anonymous_objects_model', 'C15_emit_gen_addr_table', 'C15_emit_extern_init_static_refuted', 'C15_emit_extern_init_now_defined', 'C15_emit_inline_first_now_external', 'C15_emit_dead_static_not_placed', 'C15_emit_fun_addr_now_emitted', 'C15_emit_fun_addr2_now_emitted', 'C15_emit_static_tls_local_now_tls', 'C15_emit_alignas_carried', 'C15_emit_nonvacuous']
 MODELRUN = os.path.join(VERIF, 'ocaml/modelrun')
 
 def nm_syms(obj):
@@ -241,7 +241,7 @@ def main():
     # ---------------- tie of package emit: cases evaluated by the Coq spec and model (one coqc call) and by the real compiler ----------------
     tie_dist = {}; tie_e = tie_n = 0; tie_samples = []
     if not os.environ.get('VERIF_SKIP_PROOFS'):
-        tie_e, tie_n, tie_dist, tie_samples = run_tie(run, 'emit', src, 70 if run.quick() else 700, 'unit')
+        tie_e, tie_n, tie_dist, tie_samples = run_tie(run, 'emit', src, 60 if run.quick() else 600, 'unit')
     cov = dict(evaluations=evals, distinct_nontrivial=nontriv, input_distribution=dist, samples=samples,
                rule='(a) %d generated units: 2-6 object names each declared 1-4 times as tentative / defined / extern in external, static, thread-local and static thread-local flavours (valid orders only), 3-8 functions (static inline, static, external; forward declarations whose definition omits static; references by call and by address; cycles): nm symbol type and size of every name = gcc -fcommon; which objects are defined and which static inline functions are emitted = extracted model; (b) %d three-unit programs (common symbols in several units, extern references, same-named statics, static locals, TLS, string literals, static inline helpers) built five ways: output = gcc; builds gcc rejects must be rejected' % (NA, NB),
                traces_validated_against_impl=nontriv)
